@@ -132,9 +132,13 @@ def check(case, ctx):
 
 
 def _cell_diff(c1, c2):
+    """Relative on lengths; angles compared both through their cosines (well conditioned everywhere) and directly, the
+    direct difference scaled by sin(angle): an angle obtained through arccos is good to eps/sin(angle), so
+    |d angle| * sin(angle) is the quantity with a uniform tolerance."""
     c1 = [float(x) for x in c1]
     c2 = [float(x) for x in c2]
     d = max(abs(c1[i] / c2[i] - 1) for i in range(3))
     for i in range(3, 6):
-        d = max(d, abs(math.cos(math.radians(c1[i])) - math.cos(math.radians(c2[i]))))
+        a1, a2 = math.radians(c1[i]), math.radians(c2[i])
+        d = max(d, abs(math.cos(a1) - math.cos(a2)), abs(a1 - a2) * max(math.sin(a2), 1e-3))
     return d
